@@ -61,3 +61,89 @@ Proof.
       * rewrite IH. cbn [obind map]. rewrite B2. reflexivity.
       * rewrite (B3 eq_refl eq_refl). rewrite IH. cbn [obind map]. rewrite B2. reflexivity.
 Qed.
+
+(* ---------------------------------------------------------------------------------------------
+   Column formatting of a detokenized line (src/lang/merlin/formatter.rs format_tokens, Variable style):
+   each column is followed by max 1 (width - length) blanks (width 1 after the third column), a column starting with
+   a semicolon is pushed right by the widths of the columns it skipped, and the result loses its trailing blanks. *)
+Definition spaces (n : nat) : list N := repeat 32 n.
+Fixpoint sum_nat (l : list nat) : nat := match l with [] => O | x :: r => (x + sum_nat r)%nat end.
+Fixpoint fmt_cols (widths : list nat) (idx : nat) (cols : list (list N)) : list N :=
+  match cols with
+  | [] => []
+  | col :: r =>
+      let pre := match col with 59 :: _ => sum_nat (skipn idx (firstn 3 widths)) | _ => O end in
+      let w := if Nat.ltb idx 3 then nth idx widths 1%nat else 1%nat in
+      let pad := Nat.max 1 (w - length col) in
+      spaces pre ++ col ++ spaces pad ++ fmt_cols widths (S idx) r
+  end.
+Fixpoint trim_end_rev (l : list N) : list N := match l with 32 :: r => trim_end_rev r | _ => l end.
+Definition trim_end (l : list N) : list N := rev (trim_end_rev (rev l)).
+Definition fmt_line (widths : list nat) (cols : list (list N)) : list N := trim_end (fmt_cols widths 0 cols).
+
+(* the blank-separated words of a line *)
+Fixpoint words_aux (cur : list N) (l : list N) : list (list N) :=
+  match l with
+  | [] => match cur with [] => [] | _ => [rev cur] end
+  | c :: r => if c =? 32 then (match cur with [] => words_aux [] r | _ => rev cur :: words_aux [] r end)
+              else words_aux (c :: cur) r
+  end.
+Definition words (l : list N) : list (list N) := words_aux [] l.
+Definition nonnil (c : list N) : bool := match c with [] => false | _ => true end.
+
+Lemma words_aux_col col : forall cur l, ~ In 32 col -> words_aux cur (col ++ l) = words_aux (rev col ++ cur) l.
+Proof.
+  induction col as [|c col IH]; intros cur l H; [reflexivity|].
+  cbn [app words_aux]. destruct (N.eqb_spec c 32) as [E|E]; [exfalso; apply H; left; auto|].
+  rewrite IH by (intros I; apply H; right; exact I). cbn [rev]. rewrite <- app_assoc. reflexivity.
+Qed.
+Lemma words_aux_spaces n : forall l, words_aux [] (spaces n ++ l) = words_aux [] l.
+Proof. induction n as [|n IH]; intros l; [reflexivity|]. cbn [spaces repeat app words_aux]. change (32 =? 32) with true. cbv iota. apply IH. Qed.
+Lemma words_aux_end cur n l : (0 < n)%nat -> cur <> [] -> words_aux cur (spaces n ++ l) = rev cur :: words_aux [] l.
+Proof.
+  intros Hn Hc. destruct n as [|n]; [lia|]. cbn [spaces repeat app words_aux]. change (32 =? 32) with true. cbv iota.
+  destruct cur; [contradiction|]. f_equal. apply words_aux_spaces.
+Qed.
+
+(* every column comes back as one word, in order: columns never fuse and never split *)
+Theorem fmt_cols_words widths : forall cols idx, Forall (fun c => ~ In 32 c) cols ->
+  words (fmt_cols widths idx cols) = filter nonnil cols.
+Proof.
+  induction cols as [|col r IH]; intros idx H; [reflexivity|].
+  inversion H as [|? ? Hc Hr]; subst. cbn [fmt_cols filter]. unfold words.
+  rewrite words_aux_spaces, words_aux_col by exact Hc. rewrite app_nil_r.
+  destruct col as [|c col].
+  - cbn [rev nonnil]. rewrite words_aux_spaces. apply IH; exact Hr.
+  - rewrite words_aux_end.
+    + rewrite rev_involutive. cbn [nonnil]. f_equal. apply IH; exact Hr.
+    + lia.
+    + intros E. apply (f_equal (@length N)) in E. rewrite rev_length in E. discriminate.
+Qed.
+
+Lemma words_aux_snoc_blank l : forall cur, words_aux cur (l ++ [32]) = words_aux cur l.
+Proof.
+  induction l as [|c l IH]; intros cur.
+  - cbn [app words_aux]. change (32 =? 32) with true. destruct cur; reflexivity.
+  - cbn [app words_aux]. destruct (c =? 32); [destruct cur|]; rewrite ?IH; reflexivity.
+Qed.
+Lemma words_trim l : words (trim_end l) = words l.
+Proof.
+  unfold trim_end. rewrite <- (rev_involutive l) at 2. generalize (rev l) as m. clear l.
+  induction m as [|c m IH]; [reflexivity|].
+  cbn [trim_end_rev]. destruct (N.eqb_spec c 32) as [->|E].
+  - rewrite IH. cbn [rev]. unfold words. rewrite words_aux_snoc_blank. reflexivity.
+  - assert (X : trim_end_rev (c :: m) = c :: m).
+    { destruct c as [|p]; [reflexivity|]. do 6 (destruct p as [p|p|]; try reflexivity). exfalso; apply E; reflexivity. }
+    cbn [trim_end_rev] in X. rewrite X. reflexivity.
+Qed.
+
+Theorem merlin_format_keeps_columns widths cols : Forall (fun c => ~ In 32 c) cols ->
+  words (fmt_line widths cols) = filter nonnil cols.
+Proof. intros H. unfold fmt_line. rewrite words_trim. apply fmt_cols_words. exact H. Qed.
+
+(* a line without a label starts with a blank (that is how the parser tells the label column from the others) *)
+Theorem merlin_format_label_column widths r : exists t, fmt_cols widths 0 ([] :: r) = 32 :: t.
+Proof.
+  cbn [fmt_cols]. change (Nat.ltb 0 3) with true. cbv iota. cbn [length app spaces repeat].
+  destruct (Nat.max 1 (nth 0 widths 1%nat - 0)) eqn:E; [lia|]. cbn [repeat app]. eexists; reflexivity.
+Qed.
